@@ -328,6 +328,19 @@ def main(ctx):
                     continue
                 yield (tid, n, delim, style, rsel, csel)
 
+    # longer row lists on a longer table: every 4-subset of 8 rows (ascending and one scrambled order) - fast paths
+    # that classify a row list (evenly spaced? contiguous?) from a few of its elements need this many
+    def expand_rl(u):
+        tid, n, delim, style = u
+        for comb in itertools.combinations(range(n), 4):
+            yield (tid, n, delim, style, ("list", comb), None)
+            yield (tid, n, delim, style, ("i8", (comb[2], comb[0], comb[3], comb[1])), ("list", ("h", "a")))
+        for comb in itertools.combinations(range(n), 5):
+            yield (tid, n, delim, style, ("list", comb), None)
+
+    rlunits = [("le", 8, delim, style) for delim in (None, ",") for style in ("R.read", "SF[]", "sfile.read(split)")]
+    ctx.lattice("row-lists-of-8", rlunits, one, expand=expand_rl, bounds=dict(rows=8, list_lengths=[4, 5]))
+
     # the long-row table: text only, three access styles, every row selection
     LONG_STYLES = ["R.read", "SF[]", "sfile.read"]
     lunits = [("long", 3, delim, style) for delim in ctx.pick([","], [",", " ", "\t"]) for style in LONG_STYLES]
